@@ -924,7 +924,7 @@ def graph_edit_history(rng, kind="graph-edit-history"):
                     lst[j][1] = c
         elif z < 0.7:
             i = rng.randrange(len(rx))
-            pool = species() + ["Q9"]
+            pool = sorted(set(species()) | {"Q9"})       # distinct labels: a side is a dict
             l = [[x, rng.randint(1, 3)] for x in rng.sample(pool, rng.choice([0, 1, 1, 2]))]
             r = [[x, rng.randint(1, 3)] for x in rng.sample(pool, rng.choice([0, 1, 1, 2]))]
             if (l or r) and not ({x for x, _ in l} & {x for x, _ in r}):
@@ -1025,13 +1025,13 @@ def gen_cases(tier, rng):
         if all(c == 1 for _, _, l, r in t["rxns"] for _, c in l + r) and not any(s_.startswith("R:") for _, _, l, r in t["rxns"] for s_, _ in l + r):
             cases.append(dict(t, view="bip_bare", name=t["name"] + "/bare-attributes"))
     nh = 0
-    while nh < (60 if tier == "quick" else 600):
+    while nh < (60 if tier == "quick" else 400):
         c = edit_history(rng)
         if c is not None:
             cases.append(c)
             nh += 1
     nh = 0
-    while nh < (40 if tier == "quick" else 400):
+    while nh < (40 if tier == "quick" else 300):
         c = graph_edit_history(rng)
         if c is not None:
             cases.append(c)
